@@ -16,15 +16,7 @@ Inductive cls : Type :=
 | Known (finding : string).
 
 Definition exact : list (string * cls) := [
-  ("routing_thread::RoutingThread::process_incoming_message#1-unwrap",
-     Known "key-list-limit-unwrap");
-  ("routing_thread::RoutingThread::process_incoming_message#2-unreachable",
-     Known "block-tag-unreachable");
   ("routing_thread::RoutingThread::process_ghost_chain_request#1-unwrap",
-     Unreachable "the entry was found by process_network_event (find_peer_by_index_mut(..)?) in the same task before dispatch; entries are removed only by this task (timer purge, reconnection merge, stun removal), never between lookup and dispatch");
-  ("routing_thread::RoutingThread::process_ghost_chain_request#2-unwrap",
-     Known "ghost-request-no-key");
-  ("routing_thread::RoutingThread::process_ghost_chain_request#3-unwrap",
      LocalOnly "result of an InterfaceIO call of the node's own IO layer (saito-rust's RustIOHandler always answers Ok; an Err means the internal channel to the network controller is closed)");
   ("routing_thread::RoutingThread::process_incoming_blockchain_request#1-unwrap",
      LocalOnly "result of an InterfaceIO call of the node's own IO layer (saito-rust's RustIOHandler always answers Ok; an Err means the internal channel to the network controller is closed)");
@@ -63,8 +55,6 @@ Definition exact : list (string * cls) := [
   ("verification_thread::VerificationThread::verify_block#1-unwrap",
      Unreachable "guarded by the result.is_err() early return above");
   ("verification_thread::VerificationThread::verify_block#2-unwrap",
-     Known "verify-block-generate-unwrap");
-  ("verification_thread::VerificationThread::verify_block#3-unwrap",
      LocalOnly "send on an internal mpsc channel of the node: fails only when the receiving thread of this node is gone");
   ("verification_thread::VerificationThread_as_ProcessEvent::process_network_event#1-unreachable",
      LocalOnly "no network event receiver is given to the verification threads (run_verification_thread passes None)");
@@ -100,11 +90,9 @@ Definition exact : list (string * cls) := [
      LocalOnly "statistics channel of the node (on_stat_interval)");
   ("io::network::Network::propagate_block#1-unwrap",
      LocalOnly "result of an InterfaceIO call of the node's own IO layer (saito-rust's RustIOHandler always answers Ok; an Err means the internal channel to the network controller is closed)");
-  ("io::network::Network::propagate_transaction#1-expect",
-     Known "propagate-tx-without-inputs");
-  ("io::network::Network::propagate_transaction#2-unwrap",
+  ("io::network::Network::propagate_transaction#1-unwrap",
      Unreachable "guarded by the get_public_key().is_none() continue above");
-  ("io::network::Network::propagate_transaction#3-unwrap",
+  ("io::network::Network::propagate_transaction#2-unwrap",
      LocalOnly "result of an InterfaceIO call of the node's own IO layer (saito-rust's RustIOHandler always answers Ok; an Err means the internal channel to the network controller is closed)");
   ("io::network::Network::handle_peer_disconnect#1-unwrap",
      LocalOnly "result of an InterfaceIO call of the node's own IO layer (saito-rust's RustIOHandler always answers Ok; an Err means the internal channel to the network controller is closed)");
@@ -126,8 +114,6 @@ Definition exact : list (string * cls) := [
      Unreachable "remove_reconnected_peer only removes an entry of the same key that is NOT Connected; the current entry was just marked Connected by Peer::handle_handshake_response (Handshake.v, C17_bad_response_inert / C17_connected_authentic run the same code path without this panic)");
   ("io::network::Network::handle_handshake_response#5-unwrap@debug",
      Unreachable "guarded by the public_key.is_none() continue above");
-  ("io::network::Network::handle_received_key_list#1-unwrap@debug",
-     Known "key-list-limit-unwrap");
   ("io::network::Network::send_key_list#1-unwrap",
      LocalOnly "result of an InterfaceIO call of the node's own IO layer (saito-rust's RustIOHandler always answers Ok; an Err means the internal channel to the network controller is closed)");
   ("io::network::Network::request_blockchain_from_peer#1-unwrap",
